@@ -58,6 +58,16 @@ class C04(PropertyCheck):
                             ("wc", [A, "B43"]), ("dl", [A, "0"]), ("dl", [A, "5"]), ("wls", [A, "2", "B41", "B42"]), ("rl", [A]),
                             ("ds", [A]), ("dp", [A]), ("dls", [A]), ("ws0", [A]), ("wp0", [A])]
                     cases.append(Case(pyarchive.render_case(e, 1, pre + aops), "grid-annotations"))
+        # stream block reads with counts up to the integer limits (the reader must fail at the first byte outside the data,
+        # never reserve / compute with the count: seeded change C04-4 = Vec::with_capacity(count))
+        HUGE = [0, 1, 4, 5, (1 << 31), (1 << 32) - 1, (1 << 32) + 1, (1 << 62), (1 << 63) - 1, (1 << 63), (1 << 63) + 1] + \
+               [MAXU - k for k in range(3, -1, -1)]
+        for e in "LB":
+            for size in (0, 3, 4, 9):
+                for pos in sorted(set([0, 1, size, size + 1, max(size - 1, 0)])):
+                    for n in HUGE:
+                        ops = base(size) + [("Rseek", [str(pos)]), ("Rrb", [str(n)]), ("Rru8", []), ("rb", [str(pos), str(n)])]
+                        cases.append(Case(pyarchive.render_case(e, 1, ops), "stream-block-reads-huge"))
         # value bit patterns
         vals32 = NAN_PATTERNS + [rng.getrandbits(32) for _ in range(40 if tier == "quick" else 400)]
         for e in "LB":
